@@ -482,12 +482,15 @@ class C13(Property):
         'normInt_value', 'normInt_accepted_iff', 'normInt_idempotent', 'integer_truncation_violates', 'normBool_sound',
         'normBool_accepted', 'normBool_idempotent', 'normBool_str_rejects', 'normDecimal_accepted_iff', 'normDecimal_value',
         'normDecimal_idempotent', 'normDecimal_zero_unsigned', 'normBase64_length', 'asciiLower_idempotent',
-        'asciiUpper_idempotent', 'normHex_idempotent',
+        'asciiUpper_idempotent', 'normHex_idempotent', 'normDatetime_preserves_instant', 'normDatetime_utc_fixed',
     )
     level_text = ('Lean 4 theorems over the model of DataType.normalize_objects composed with the C03 gate model: for the '
                   'integer, decimal/currency and boolean families the normal form of every in-domain input denotes the same '
                   'number, is accepted by the gate exactly when the value is in the range / digit budget of the type, and is '
-                  'a fixed point of normalization; negative zero becomes unsigned zero; base64 padding yields a multiple of '
+                  'a fixed point of normalization; a datetime with a UTC offset is normalised to the UTC notation of the same '
+                  'instant (same minute since the epoch; the calendar conversions are proved inverse to each other, the '
+                  'year-of-era formula by kernel evaluation over all 146097 days of an era) and a valid UTC datetime to its '
+                  'own notation; negative zero becomes unsigned zero; base64 padding yields a multiple of '
                   'four and is idempotent; ASCII case folding (hex, lc/uc strings) is idempotent. Datetime (conversion to UTC '
                   'by civil-day arithmetic), IP, geo and float normalization are modelled executably or judged by independent '
                   'oracles and compared with the code, not proved. Compared with DataType.normalize_objects, the writer\'s auto '
